@@ -1,2 +1,328 @@
-//! Harnesses for property C14 (see /verif/properties.jsonl).
+//! Harnesses for property C14 (see /verif/properties.jsonl):
+//! producing the next request either yields a packet that fits the 1024-byte send buffer or asks
+//! for a reset; it never crashes (Kani checks every panic, `expect`, index and overflow on the way).
+//!
+//! Encoding a request with many extension fields symbolically is out of reach (measured on
+//! `NtpSource::handle_timer` with NTS: global unwind 8 = 17 s, unwind 10 > 5 min and > 4 GB, because
+//! the encoder dispatches on a symbolic field kind at a symbolic cursor position in every
+//! iteration). The claim is therefore decided in pieces, each a solver query over its whole space:
+//!   * c14_poll_wire_* / c14_poll_edge_*: the REAL `handle_timer` + REAL encoder for every request
+//!     with at most 3 (NTPv4) / 2 (NTPv5) cookie-sized fields: all stash fills when the cookie is
+//!     long (L >= 242: at most 2 fit), stash fill 6..=8 / 7..=8 otherwise;
+//!   * c14_ef_size: the REAL per-field encoder for the cookie-dependent fields, every L <= 1024 and
+//!     every remaining buffer size: writes exactly E(L) bytes or fails cleanly;
+//!   * c14_budget: with the sizes established above, the number of fields `handle_timer` asks for
+//!     (its margin rule, recomputed here from the property text) never exceeds the buffer — for all
+//!     L <= 1024, all stash fills, both wire formats (arithmetic over the harness's own formula,
+//!     tied to the code by the two harness groups above);
+//!   * c14_write_zeros_model: the loop-free model of `write_zeros` used in the poll harnesses equals
+//!     the real loop;
+//!   * c14_poll_plain: sources without NTS, all protocol versions.
+use crate::common::*;
 use crate::stubs;
+use ntp_proto::verif::packet::extension_fields as eh;
+use ntp_proto::verif::source as sh;
+use ntp_proto::*;
+use std::borrow::Cow;
+use std::io::Cursor;
+
+/// wire size of a cookie / placeholder field for a cookie of length l (RFC 7822: 4-byte header,
+/// value padded to a word, at least 16 bytes)
+fn ef_wire(l: usize) -> usize {
+    core::cmp::max((l + 3) / 4 * 4 + 4, 16)
+}
+
+/// number of cookies requested (property text + documented margin): min(missing, floor(724/max(L,1)))
+fn asked(valid: usize, l: usize) -> usize {
+    let missing = MAX_COOKIES - (valid - 1);
+    core::cmp::min(missing, 724 / core::cmp::max(l, 1))
+}
+
+/// One NTS `handle_timer` with the real encoder. The oldest cookie (the one that is sent and that
+/// sizes the placeholders) has length `l` (zero content: content does not influence sizes).
+fn c14_wire_body(l: usize, cap: usize, valid_lo: usize, version_sel: u8) {
+    stubs::symbolic_clock();
+    sym_rng();
+    let valid: usize = kani::any();
+    kani::assume(valid <= MAX_COOKIES && (valid == 0 || valid >= valid_lo));
+    let tries_left: u8 = kani::any();
+    let desired: i8 = kani::any();
+    kani::assume(desired >= 0 && desired <= 17);
+    let reach: u8 = kani::any();
+    let tries: usize = kani::any();
+    kani::assume(tries <= 4);
+    kani::assume(l <= cap);
+
+    let mut oldest = vec![0u8; cap];
+    oldest.truncate(l);
+    let nts = sh::nts_data_with_stash(stash0(valid, oldest), c2s(), s2c());
+    let version = version_from(version_sel, tries_left);
+    let v5 = version_sel != 0;
+    let mut src = new_source(version, SourceConfig::default(), poll(desired), Some(nts));
+    sh::set_reach(&mut src, reach);
+    sh::set_tries(&mut src, tries);
+
+    let (acts, n) = collect_actions(src.handle_timer());
+
+    let sent = match &acts[0] {
+        Some(NtpSourceAction::Send(p)) => {
+            assert!(n == 2 && matches!(acts[1], Some(NtpSourceAction::SetTimer(_))), "Send is followed by SetTimer only");
+            assert!(p.len() <= 1024, "request fits the 1024-byte send buffer");
+            assert!(valid >= 1 && l <= 724, "a request is only built when a cookie that leaves room exists");
+            let fixed = if v5 { 48 + 36 + 28 + 20 + 40 } else { 48 + 36 + 40 };
+            assert!(p.len() == fixed + asked(valid, l) * ef_wire(l), "datagram size = fixed part + one field per requested cookie");
+            true
+        }
+        Some(NtpSourceAction::Reset) => {
+            assert!(n == 1, "Reset stands alone");
+            assert!(valid == 0 || l > 724 || (reach == 0 && tries >= 3), "reset only without cookie, with an oversize cookie, or when unreachable");
+            false
+        }
+        _ => {
+            assert!(false, "either Send+SetTimer or Reset");
+            false
+        }
+    };
+    if cap <= 724 {
+        kani::cover!(sent && valid == 8, "request from a full stash");
+        kani::cover!(sent && valid == valid_lo && l == cap, "request with the most fields of this harness");
+        kani::cover!(!sent && valid == 0, "reset: no cookies");
+    } else {
+        kani::cover!(!sent && valid == 8 && reach != 0, "reset: oversize cookie");
+    }
+}
+
+nharness! {
+    #[kani::unwind(8)]
+    fn c14_poll_wire_v4() {
+        let l: usize = kani::any();
+        c14_wire_body(l, 64, 6, 0);
+    }
+}
+
+nharness! {
+    #[kani::unwind(8)]
+    fn c14_poll_wire_v5() {
+        let l: usize = kani::any();
+        let sel: u8 = kani::any();
+        kani::assume(sel >= 1 && sel <= 3);
+        c14_wire_body(l, 64, 7, sel);
+    }
+}
+
+// boundary lengths, concrete (each harness: all stash fills that keep the field count within the
+// unwind bound, all random draws, poll/reach states):
+//   L >= 242: at most 2 cookies fit -> every stash fill 0..=8
+//   L <  242: stash fill 6..=8 (v4) / 7..=8 (v5)
+macro_rules! edge {
+    ($name4:ident, $name5:ident, $l:expr) => {
+        nharness! {
+            #[kani::unwind(8)]
+            fn $name4() {
+                c14_wire_body($l, $l, if $l >= 242 { 1 } else { 6 }, 0);
+            }
+        }
+        nharness! {
+            #[kani::unwind(8)]
+            fn $name5() {
+                c14_wire_body($l, $l, if $l >= 242 { 1 } else { 7 }, 3);
+            }
+        }
+    };
+}
+// u8 wrap of the fit computation (255/256), steps of floor(724/L) (90/91, 103/104, 120/121,
+// 144/145, 181/182, 241/242, 361/362/363), the margin (723/724/725), the buffer (1020/1024)
+edge!(c14_poll_edge_v4_90, c14_poll_edge_v5_90, 90);
+edge!(c14_poll_edge_v4_91, c14_poll_edge_v5_91, 91);
+edge!(c14_poll_edge_v4_103, c14_poll_edge_v5_103, 103);
+edge!(c14_poll_edge_v4_104, c14_poll_edge_v5_104, 104);
+edge!(c14_poll_edge_v4_120, c14_poll_edge_v5_120, 120);
+edge!(c14_poll_edge_v4_121, c14_poll_edge_v5_121, 121);
+edge!(c14_poll_edge_v4_144, c14_poll_edge_v5_144, 144);
+edge!(c14_poll_edge_v4_145, c14_poll_edge_v5_145, 145);
+edge!(c14_poll_edge_v4_181, c14_poll_edge_v5_181, 181);
+edge!(c14_poll_edge_v4_182, c14_poll_edge_v5_182, 182);
+edge!(c14_poll_edge_v4_241, c14_poll_edge_v5_241, 241);
+edge!(c14_poll_edge_v4_242, c14_poll_edge_v5_242, 242);
+edge!(c14_poll_edge_v4_255, c14_poll_edge_v5_255, 255);
+edge!(c14_poll_edge_v4_256, c14_poll_edge_v5_256, 256);
+edge!(c14_poll_edge_v4_361, c14_poll_edge_v5_361, 361);
+edge!(c14_poll_edge_v4_362, c14_poll_edge_v5_362, 362);
+edge!(c14_poll_edge_v4_363, c14_poll_edge_v5_363, 363);
+edge!(c14_poll_edge_v4_723, c14_poll_edge_v5_723, 723);
+edge!(c14_poll_edge_v4_724, c14_poll_edge_v5_724, 724);
+edge!(c14_poll_edge_v4_725, c14_poll_edge_v5_725, 725);
+edge!(c14_poll_edge_v4_1020, c14_poll_edge_v5_1020, 1020);
+edge!(c14_poll_edge_v4_1024, c14_poll_edge_v5_1024, 1024);
+
+// ------------------------------------------------------------------------------------------
+// the per-field encoder, every cookie length and every remaining buffer size
+#[kani::proof]
+#[kani::unwind(36)]
+fn c14_ef_size() {
+    let l: usize = kani::any();
+    kani::assume(l <= 1024);
+    let room: usize = kani::any();
+    kani::assume(room <= 1100);
+    let kind: u8 = kani::any();
+    kani::assume(kind <= 1);
+    let v5: bool = kani::any();
+    let fill: u8 = kani::any();
+    let j: usize = kani::any();
+
+    let mut value = vec![fill; 1024];
+    value.truncate(l);
+    let ef = if kind == 0 { eh::ExtField::NtsCookie(Cow::Owned(value)) } else { eh::ExtField::NtsCookiePlaceholder { cookie_length: l as u16 } };
+    let mut buf = [0xEEu8; 1100];
+    let mut w = Cursor::new(&mut buf[..room]);
+    let version = if v5 { ExtensionHeaderVersion::V5 } else { ExtensionHeaderVersion::V4 };
+    // minimum size 16: what the encoder uses for fields in front of the authenticator
+    let r = eh::ef_serialize_hook(&ef, &mut w, 16, version);
+    let pos = w.position() as usize;
+    let want = ef_wire(l);
+    if room >= want {
+        assert!(r.is_ok(), "the field is written when it fits");
+        assert!(pos == want, "a cookie-sized field occupies exactly max(16, 4 + L rounded up to a word) bytes");
+        let len_field = ((buf[2] as usize) << 8) | buf[3] as usize;
+        if v5 {
+            assert!(len_field == core::cmp::max(l + 4, 16), "NTPv5 length field: unpadded length, at least 16");
+        } else {
+            assert!(len_field == want, "NTPv4 length field: padded length");
+        }
+        if j >= 4 && j < want {
+            let expect = if kind == 0 && j - 4 < l { fill } else { 0 };
+            assert!(buf[j] == expect, "value, then zero padding");
+        }
+    } else {
+        assert!(r.is_err(), "a field that does not fit is an error, never a panic");
+        assert!(pos <= room);
+    }
+    kani::cover!(r.is_ok() && l == 1024 && kind == 1, "largest placeholder");
+    kani::cover!(r.is_ok() && l == 0, "empty cookie: padded to the minimum");
+    kani::cover!(r.is_err() && room > 16, "does not fit");
+    kani::cover!(r.is_ok() && v5 && l % 4 == 1, "v5 unpadded length");
+}
+
+// ------------------------------------------------------------------------------------------
+// the margin rule against the sizes: arithmetic over all cookie lengths and stash fills
+#[kani::proof]
+fn c14_budget() {
+    let l: usize = kani::any();
+    kani::assume(l <= 1024);
+    let valid: usize = kani::any();
+    kani::assume(valid >= 1 && valid <= MAX_COOKIES);
+    let v5: bool = kani::any();
+    let n = asked(valid, l);
+    let fixed = if v5 { 48 + 36 + 28 + 20 + 40 } else { 48 + 36 + 40 };
+    if n >= 1 {
+        assert!(fixed + n * ef_wire(l) <= 1024, "header + identifier + requested cookie fields + authenticator fit 1024 bytes");
+    } else {
+        assert!(l > 724, "no cookie can be requested only for cookies longer than the margin allows");
+    }
+    kani::cover!(n == 8 && v5 && fixed + n * ef_wire(l) > 900, "close to the limit with eight fields");
+    kani::cover!(n == 1 && l == 724, "largest cookie that is still sent");
+}
+
+// ------------------------------------------------------------------------------------------
+// the write_zeros model used by the poll harnesses (common.rs) against the real loop
+#[kani::proof]
+#[kani::unwind(36)]
+fn c14_write_zeros_model() {
+    let n: usize = kani::any();
+    kani::assume(n <= 1100);
+    let room: usize = kani::any();
+    kani::assume(room <= 1100);
+    let start: usize = kani::any();
+    kani::assume(start <= room);
+    let j: usize = kani::any();
+    kani::assume(j < 1100);
+    let mut a = [0xEEu8; 1100];
+    let mut b = [0xEEu8; 1100];
+    let (ra, pa) = {
+        let mut w = Cursor::new(&mut a[..room]);
+        w.set_position(start as u64);
+        let r = eh::write_zeros_hook(&mut w, n);
+        (r.is_ok(), w.position() as usize)
+    };
+    let (rb, pb) = {
+        let mut w = Cursor::new(&mut b[..room]);
+        w.set_position(start as u64);
+        let r = write_zeros_single(&mut w, n);
+        (r.is_ok(), w.position() as usize)
+    };
+    assert!(ra == rb, "model and loop succeed/fail together");
+    assert!(ra == (start + n <= room), "fails exactly when the zeros do not fit");
+    if ra {
+        assert!(pa == pb && pa == start + n, "same final position");
+        assert!(a[j] == b[j], "same bytes");
+        assert!(a[j] == if j >= start && j < start + n { 0 } else { 0xEE }, "exactly n zero bytes");
+    }
+    kani::cover!(ra && n == 1100 && start == 0, "largest run");
+    kani::cover!(!ra && n > 32, "does not fit");
+    kani::cover!(ra && n == 0, "nothing to write");
+}
+
+// ------------------------------------------------------------------------------------------
+// sources without NTS: all protocol versions
+harness! {
+    #[kani::unwind(12)]
+    #[kani::stub(std::collections::HashMap::insert, crate::stubs::hashmap_insert_noop)]
+    fn c14_poll_plain() {
+        stubs::symbolic_clock();
+        stubs::symbolic_rng();
+        let version_sel: u8 = kani::any();
+        kani::assume(version_sel <= 3);
+        let tries_left: u8 = kani::any();
+        let desired: i8 = kani::any();
+        let remote: i8 = kani::any();
+        let reach: u8 = kani::any();
+        let tries: usize = kani::any();
+        let have_deny: bool = kani::any();
+
+        let mut src = new_source(version_from(version_sel, tries_left), SourceConfig::default(), poll(desired), None);
+        sh::set_remote_min_poll_interval(&mut src, poll(remote));
+        sh::set_reach(&mut src, reach);
+        sh::set_tries(&mut src, tries);
+        sh::set_have_deny(&mut src, have_deny);
+
+        let (acts, n) = collect_actions(src.handle_timer());
+        let sent = match &acts[0] {
+            Some(NtpSourceAction::Send(p)) => {
+                assert!(n == 2 && matches!(acts[1], Some(NtpSourceAction::SetTimer(_))), "Send is followed by SetTimer only");
+                assert!(p.len() <= 1024, "request fits the 1024-byte send buffer");
+                true
+            }
+            Some(NtpSourceAction::Reset) | Some(NtpSourceAction::Demobilize) => {
+                assert!(n == 1, "Reset/Demobilize stands alone");
+                assert!(reach == 0 && tries >= 3, "only an unreachable source gives up");
+                false
+            }
+            _ => {
+                assert!(false, "Send+SetTimer, Reset or Demobilize");
+                false
+            }
+        };
+        kani::cover!(sent && version_sel == 3, "v5 request");
+        kani::cover!(sent && version_sel == 1, "upgrade request");
+        kani::cover!(sent && version_sel == 0 && desired == -128, "extreme poll exponent");
+        kani::cover!(!sent && have_deny, "demobilize");
+    }
+}
+
+// ---- probes (not registered)
+fn probe_body(valid: usize, l: usize, v5: bool) {
+    sym_rng();
+    let oldest = vec![0u8; l];
+    let stash = stash0(valid, oldest);
+    let nts = sh::nts_data_with_stash(stash, c2s(), s2c());
+    let mut src = new_source(if v5 { ProtocolVersion::V5 } else { ProtocolVersion::V4 }, SourceConfig::default(), poll(6), Some(nts));
+    let (acts, n) = collect_actions(src.handle_timer());
+    match &acts[0] {
+        Some(NtpSourceAction::Send(p)) => assert!(p.len() <= 1024),
+        _ => assert!(false),
+    }
+}
+nharness! {
+    #[kani::unwind(10)]
+    fn probe_u10() { probe_body(4, 4, false); }
+}
